@@ -47,8 +47,8 @@ var layouts = []layout{
 	uniform("spaces", " "),
 	uniform("tabs", "\t"),
 	uniform("folded", "\n "),
+	{"padded", "  ", " ", "  ", "  ", " ", " ", " ", " ", " ", " "}, // blanks inside the brackets as well
 	// thorough only
-	{"padded", "  ", " ", "  ", "  ", " ", " ", " ", " ", " ", " "},
 	uniform("crlf", "\r\n "),
 	{"mixed", "\t ", "\n", "", " \t", "\n ", "", "", "\t", "\n", "\t\n"},
 }
@@ -439,7 +439,7 @@ func alternatives() []alt {
 
 func main() {
 	alts := alternatives()
-	nl := 4
+	nl := 5
 	if thorough {
 		nl = len(layouts)
 	}
